@@ -253,7 +253,18 @@ func genC16(e *emitter, r *rng, tier string) {
 		x := func() int { return ext[r.intn(len(ext))] }
 		for j := 0; j < 10; j++ {
 			h := b.pickHandle()
-			switch r.intn(14) {
+			switch r.intn(16) {
+			case 14:
+				// a writer that fails (error / short write) is a legal argument: Fprint over several ranges
+				// with a small buffer must return the error, never panic
+				b.add("fpr:%d:r%d~%d,r%d~%d,a%d,r%d~%d:R%d.B%d:%d:%d", h, r.pick([]int{0, 2}), r.pick([]int{3, 30}), 40, r.pick([]int{45, 70}),
+					80, 90, r.pick([]int{95, 130}), r.pick([]int{0, 10, 50}), r.pick([]int{1, 4, 16}), r.intn(3), r.pick([]int{0, 1, 5, 20, 40, 70, 120}))
+			case 15:
+				if b.finiteWork(h) {
+					b.add("fwr:%d:B%d:%d:%d", h, r.pick([]int{1, 4, 16}), r.intn(3), r.pick([]int{0, 1, 5, 20, 40, 70, 120}))
+				} else {
+					b.add("at:%d:%d", h, x())
+				}
 			case 0:
 				b.add("ws:%d:%d", h, x())
 				b.handles = append(b.handles, b.handles[h])
